@@ -322,4 +322,19 @@ def r_cpu_physical(e, R):
             any(isinstance(s, ast.Assign) and isinstance(s.value, ast.Name) and s.value.id == h.ast.name for s in h.ast.body) for h in hs)
         R.check(okh, "R-CPU-PHYSICAL", "any probe failure becomes ('not found', exception)", pf.short, "except Exception as e: ...", "a probe failure propagates out of cpu_count",
                 e.loc(pf, pf.node))
-    R.floor("R-CPU-PHYSICAL", 9)
+    # the probe hands out the exception of a failed detection exactly once (later calls hit the cache): a call of it whose answer
+    # is then dropped on some path -- e.g. probing before the "user limit wins" early return -- consumes that one report, and the
+    # fallback of a later call warns never instead of once
+    pcalls = [(n, c) for n in g.nodes for c in calls_in(n) if e.callees_of(c) & {pf.qualname}]
+    R.check(bool(pcalls), "R-CPU-PHYSICAL", "cpu_count consults the cached probe", f.short, pf.short, "the physical-core probe is never called", e.loc(f, f.node))
+    for n, c in pcalls:
+        st = stmt_of(e, f, c)
+        res = [x.id for tg in getattr(st, "targets", []) for x in ast.walk(tg) if isinstance(x, ast.Name)]
+        uses = lambda m: m is not n and m.ast is not None and any(isinstance(x, ast.Name) and x.id in res and isinstance(x.ctx, ast.Load) for x in _walk_noscope(
+            m.ast.context_expr if m.kind == "with_enter" else m.ast))
+        dropped = g.find_path(n, lambda m: m.kind == "stmt" and isinstance(m.ast, ast.Return), avoid=uses, use_exc=False) if res else [n]
+        R.check(dropped is None, "R-CPU-PHYSICAL", "the probe's answer (count, one-shot exception) is examined on every path that follows the call", f.short, norm(st)[:70],
+                "cpu_count calls the physical-core probe and then returns on some path without looking at its answer: the probe reports the exception of a "
+                "failed detection only on the call that ran it, so that report is lost and a later call falls back to the logical value with no warning at all",
+                e.loc(f, c), g.fmt_path(dropped) if dropped else None)
+    R.floor("R-CPU-PHYSICAL", 11)
